@@ -1331,7 +1331,7 @@ def gen_c16_bool(rng):
 
 # ------------------------------------------------------------------ C17
 def gen_c17(rng):
-    cfg = rng.choice([(1, 2), (1, 4), (2, 8), (1, 16), (2, 16), (4, 16), (1, 8)])
+    cfg = rng.choice([(1, 2), (1, 4), (2, 8), (1, 16), (2, 16), (4, 16), (1, 8), (4, 4), (2, 2), (1, 1), (8, 8)])
     mk = pick_map(rng, kinds=('plain', 'plain', 'wide', 'packed', 'rec'), h=0)
     if mk['kind'] != 'packed':
         mk['nc'], mk['ns'] = cfg
@@ -1397,9 +1397,9 @@ def gen_c17_deep(rng):
 
 
 def gen_c17_big(rng):
-    """orders 15 and 16 (UNIQ numbers beyond 32 bits), every base pixel incl. the last ones: scattered pixels, one
+    """orders 13 to 16 (UNIQ numbers around and beyond 32 bits), every base pixel incl. the last ones: scattered pixels, one
     full group of siblings (merged one level up) and one group with a missing sibling"""
-    order = rng.choice([15, 15, 16])
+    order = rng.choice([15, 15, 16, 14, 14, 13])      # 14: the largest UNIQ numbers just pass 2**31
     ns = 2 ** order
     nc = rng.choice([32, 64, 128])
     npix = 12 * ns * ns
